@@ -27,7 +27,7 @@ func init() { sim.Register(c16{}) }
 func (c16) ID() string    { return "C16" }
 func (c16) Level() string { return "exploration" }
 func (c16) Rule() string {
-	return "histories on one FC layer (random widths; harness-chosen non-uniform W, B incl. zeros, or library defaults under a seeded RNG) by two clients interleaved at call granularity: a user doing Forward (tracked or untracked input, batch 1-6), weighting the output with a random untracked G and back-propagating; an operator replacing W or B through the Weights() pointers at arbitrary instants (pointer-swap fault: before a forward, between a forward and its back-propagation, after it) and re-reading the pointers; invalid-call faults (0 / 2 inputs, nil, rank 1 / 3). Model: the arrays and tensor objects behind each slot and, per forward, which objects were current. Non-trivial: a swap fell between a forward and its back-propagation. Distinct: hash of the (client, op, slot, batch, flags) sequence."
+	return "histories on one FC layer (random widths; harness-chosen non-uniform W, B incl. zeros, or library defaults under a seeded RNG) by two clients interleaved at call granularity: a user doing Forward (tracked or untracked input, batch 1-6), weighting the output with a random untracked G and back-propagating; an operator replacing W or B through the Weights() pointers at arbitrary instants (pointer-swap fault: before a forward, between a forward and its back-propagation, after it) and re-reading the pointers; invalid-call faults (0 / 2 inputs, nil, rank 1 / 3). Model: the arrays and tensor objects behind each slot and, per forward, which objects were current. Non-trivial: a swap fell between a forward and its back-propagation. Distinct: hash of the (client, op, slot, batch, flags) sequence. Also: library-constant replacements, tie, optimizer step on a slot, spread input list, the layer applied 2-70 times to its own output in one graph, rare long-lived layers (300-1200 steps), rejected calls with a live parameter as operand."
 }
 func (c16) Assumptions() []string {
 	return []string{
@@ -39,7 +39,7 @@ func (c16) Assumptions() []string {
 }
 func (c16) Extra() map[string]any {
 	e := baseExtra()
-	e["fault_kinds"] = []string{"pointer-swap", "invalid-call", "reorder (interleaving of user and operator)"}
+	e["fault_kinds"] = []string{"pointer-swap (fresh tensors, library constants, tie, optimizer step, reset in place, layer copied by value)", "invalid-call (invalid Forward, the shared catalogue with a live parameter as operand)", "reorder (interleaving of user and operator)"}
 	return e
 }
 
